@@ -129,7 +129,7 @@ def _cli_case(ctx, d, rng, tmp, it, opt):
     from tme.memory import estimate_ram_usage
     score, peak_calling, split, centering, pad_fourier, pad_edges, peak_caller, border, use_memmap = (
         opt[k] for k in ("score", "peak_calling", "split", "centering", "pad_fourier", "pad_edges", "peak_caller", "border", "use_memmap"))
-    m = 5 if centering else int(rng.choice([5, 6]))
+    m = 5 if centering else (6 if it % 2 == 0 else 5)       # even boxes only arise without centring
     ms = [m] * 3
     ns = [int(x) for x in rng.integers(3 * m + 4, 3 * m + 8, size=3)]
     # asymmetric positive template; with centring the enclosing box is the template box itself (all voxels > 0)
@@ -137,14 +137,23 @@ def _cli_case(ctx, d, rng, tmp, it, opt):
     template[0, :, :] += 1.5
     template[:, 1, :] += 0.7
     template[:, :, 2] += 1.1
+    # the rotation set the tool will use (24 grid rotations, in the tool's order: inner jobs get contiguous chunks)
+    from tme.matching_utils import get_rotation_matrices
+    Rset = np.asarray(get_rotation_matrices(angular_sampling=60, dim=3), dtype=np.float64)
+    ridx = int(rng.integers(0, 12)) if (peak_calling and split) else int(rng.integers(0, len(Rset)))
+    R = Rset[ridx]
+    Rinv = R.T
+    perm = [int(np.argmax(np.abs(Rinv[i]))) for i in range(3)]
+    flip = [bool(Rinv[i, perm[i]] < 0) for i in range(3)]
     rots = S.grid_rotations(3)
-    perm, flip, R = rots[int(rng.integers(0, len(rots)))]
     gR = S.rotate_grid(template, perm, flip)
     P0 = []
     for n in ns:
         if centering:
             # the centred template lives in an enlarged box (all rotations fit): keep that box inside the target
             P0.append(int(rng.integers(4, n - m - 3)))
+        elif peak_calling and split:
+            P0.append(int(rng.integers(n // 2 + 1, n - m)))       # in a tile with a non-zero offset
         else:
             P0.append(int(rng.choice([0, n - m])) if border else int(rng.integers(1, n - m)))
     target = rng.normal(0, 0.15, size=ns)
@@ -173,7 +182,7 @@ def _cli_case(ctx, d, rng, tmp, it, opt):
                                    analyzer_method="PeakCallerMaximumFilter" if peak_calling else "MaxScoreOverRotations")
         cmd += ["-r", str(int(whole * 0.8))]
     inp = dict(opt)
-    inp.update({"ns": ns, "ms": ms, "P0": P0, "perm": perm, "flip": flip})
+    inp.update({"ns": ns, "ms": ms, "P0": P0, "perm": perm, "flip": flip, "rotation_index": ridx})
     rc, log = _run(cmd, case_dir)
     if rc != 0 or not os.path.exists(os.path.join(case_dir, "out.pickle")):
         ctx.spec("match_template.py runs", inp, False, log, key="cli:match_template-failed:" + score)
@@ -183,6 +192,16 @@ def _cli_case(ctx, d, rng, tmp, it, opt):
     n_splits = None
     meta_ok = len(data[-1]) == 4 and os.path.basename(cli_args.template) == "template.mrc"
     ctx.spec("result file carries the metadata record (origins, sampling rate, arguments)", inp, bool(meta_ok), key="cli:metadata")
+    if not peak_calling:
+        smap = np.asarray(data[0])
+        ctx.spec("score map in the result file has the target's shape (its indices are target voxel coordinates)", inp,
+                 list(smap.shape) == ns and list(np.asarray(data[2]).shape) == ns, {"score map": list(smap.shape), "target": ns},
+                 key="cli:score-map-shape")
+        if list(smap.shape) == ns and not centering:
+            am = [int(x) for x in np.unravel_index(int(np.argmax(smap)), smap.shape)]
+            want = [p + m // 2 for p in P0]
+            ctx.spec("maximum of the score map in the result file sits at the planted box centre", inp, am == want,
+                     {"argmax": am, "planted": want}, key="cli:score-map-argmax")
     # reference point in target voxel coordinates
     if centering:
         com = np.array([np.sum(gR * g) / gR.sum() for g in np.indices(ms)])
@@ -257,6 +276,7 @@ def run(ctx):
             "border": bool(it % 4 == 0),
             "use_memmap": bool(it % 7 == 3),
         })
+    # it=0: no centring, even box, --pad_edges, score map;  it=1: -p, memory-limited split, 2 cores, odd box, no centring
     # run the subprocess cases on a few workers
     from concurrent.futures import ThreadPoolExecutor
     rngs = [ctx.rng(f"cli{it}") for it in range(ncli)]
